@@ -177,6 +177,10 @@ def jobs(prop, tier, seed):
     return out
 
 
+ID_SRC = (
+    "Key = NewType('Key', str)\n@dataclass\nclass Rec:\n    key: Key\n    n: int = 0\n"
+    "def rec(key: Key, keys: Optional[List[Key]] = None) -> Rec:\n    LOG.append(('rec', key, keys))\n    return Rec(key)\n"
+)
 # small schemas built on their own: (source, resolvers, expected Query.<field> args, query, expected data, expected call log)
 BUILD_CASES = {
     "input_default_factory": dict(
@@ -231,6 +235,25 @@ BUILD_CASES = {
         query_fields=["mid"], args={"mid": {"a": "Int!", "b": "Int"}},
         query="{ mid(a: 1, b: 2) }", data={"mid": 1}, log="[('mid', 1, 2)]",
     ),
+    # ID types: declared as ID in arguments, lists and output fields; id_encoding applied to
+    # arguments given as variables *and* as literals of the query text, and to results
+    "id_types": dict(
+        src=ID_SRC, kwargs="dict(id_types={Key})",
+        query_fields=["rec"], args={"rec": {"key": "ID!", "keys": "[ID!]"}}, out_types={"Rec": {"key": "ID!", "n": "Int!"}},
+        query='{ rec(key: "k1", keys: ["a"]) { key n } }', data={"rec": {"key": "k1", "n": 0}}, log="[('rec', 'k1', ['a'])]",
+    ),
+    "id_encoding_variables": dict(
+        src=ID_SRC, kwargs="dict(id_types={Key}, id_encoding=(lambda x: x[3:], lambda x: 'id:' + x))",
+        query_fields=["rec"], args={"rec": {"key": "ID!", "keys": "[ID!]"}},
+        query="query($k: ID!, $ks: [ID!]) { rec(key: $k, keys: $ks) { key n } }", variables={"k": "id:k1", "ks": ["id:a"]},
+        data={"rec": {"key": "id:k1", "n": 0}}, log="[('rec', 'k1', ['a'])]",
+    ),
+    "id_encoding_literals": dict(
+        src=ID_SRC, kwargs="dict(id_types={Key}, id_encoding=(lambda x: x[3:], lambda x: 'id:' + x))",
+        query_fields=["rec"], args={"rec": {"key": "ID!", "keys": "[ID!]"}},
+        query='{ rec(key: "id:k1", keys: ["id:a"]) { key n } }',
+        data={"rec": {"key": "id:k1", "n": 0}}, log="[('rec', 'k1', ['a'])]",
+    ),
 }
 BUILD_HEAD = """
 from dataclasses import dataclass, field
@@ -271,7 +294,7 @@ class Build:
         C = self.case
         mod = exec_module("vf_c19b", BUILD_HEAD + C["src"])
         try:
-            schema = mod.graphql_schema(query=[getattr(mod, n) for n in C["query_fields"]])
+            schema = mod.graphql_schema(query=[getattr(mod, n) for n in C["query_fields"]], **eval(C.get("kwargs", "{}"), mod.__dict__))
         except Exception as e:
             return Failure("schema-build-raises", type(e).__name__, witness=self.job["case"], extra={"exc": type(e).__name__})
         q = schema.type_map["Query"]
@@ -279,7 +302,11 @@ class Build:
             got = {k: str(a.type) for k, a in q.fields[fname].args.items()}
             if got != args:
                 return Failure("argument-mapping-differs", witness=self.job["case"], extra={"field": fname, "graphql": got, "expected": args})
-        res = graphql.graphql_sync(schema, C["query"])
+        for tname, fields in C.get("out_types", {}).items():
+            got = {k: str(f.type) for k, f in schema.type_map[tname].fields.items()}
+            if got != fields:
+                return Failure("output-type-mapping-differs", witness=self.job["case"], extra={"type": tname, "graphql": got, "expected": fields})
+        res = graphql.graphql_sync(schema, C["query"], variable_values=C.get("variables"))
         if res.errors or res.data != C["data"]:
             return Failure("query-result-differs", witness=self.job["case"], extra={"data": res.data, "errors": [str(e) for e in res.errors or []]})
         if mod.LOG != eval(C["log"], mod.__dict__):
